@@ -58,10 +58,10 @@ func encodeWithRules(enc ce.Encoder, log []ev.Event, cfg *configuration.Configur
 }
 
 type decodeResult struct {
-	Log      []ev.Event
-	Err      error
-	Panic    interface{}
-	Stack    string
+	Log   []ev.Event
+	Err   error
+	Panic interface{}
+	Stack string
 }
 
 // decodeDoc decodes through rules into a recorder. An escaped panic is captured separately from err.
